@@ -39,6 +39,32 @@ def check(ctx: Ctx) -> None:
     ctx.ob("C15.var", VAR, isinstance(val, ast.Call) and (dotted(val.func) or "").split(".")[-1] == "ContextVar",
            f"{FCE}.{VAR} is not a ContextVar bound exactly once at module level ({norm(val) if val is not None else 'rebound or missing'})",
            file="src/ahbicht/content_evaluation/fc_evaluators.py")
+    # reader: FcEvaluator.evaluate_single_format_constraint hands the text of the context variable to the method unchanged
+    import ast as _ast
+
+    from ..evalmodel import Harness
+    from ..fdai import Frame
+    from ..fdvalues import Obj, PyRaise, explore
+
+    for text in (" abc ", "abc", "", "\u00a0x\t", None):
+        def run(ch, text=text):
+            h = Harness(model, ch, fc={"901": {text: (True, None), "*": (False, "another text arrived")}})
+            it = h.it
+            cv = it.eval(_ast.parse(VAR, mode="eval").body, Frame(None, fmod, None, set()))
+            if not (isinstance(cv, Obj) and cv.cls == "contextvars.ContextVar"):
+                return ("not-a-contextvar", repr(cv))
+            cv.fields["value"] = text
+            try:
+                r = it.await_(it.call(it.getattr(h.fc_eval, "evaluate_single_format_constraint", None, None), ["901"], {}, None, None), None, None)
+            except PyRaise as err:
+                return ("raise", err.exc.cls)
+            return ("ret", r.fields.get("format_constraint_fulfilled") if isinstance(r, Obj) else repr(r))
+
+        outs = sorted({o for _t, o in explore(run)}, key=repr)
+        ctx.count()
+        ctx.ob("C15.own-input", f"reader:{text!r}", outs == [("ret", True)],
+               f"with the entered input {text!r} in {VAR}, the evaluation method of FcEvaluator.evaluate_single_format_constraint received another text (outcome {outs}): "
+               "the constraint is not evaluated against the element's own input", file="src/ahbicht/content_evaluation/fc_evaluators.py", function="FcEvaluator.evaluate_single_format_constraint")
     # writers
     writers = []
     for fn in model.functions.values():
